@@ -11,7 +11,7 @@
     The theorems of sections 1-4 hold for EVERY whitespace class [is_space] that
     contains LF, SP and TAB, and for EVERY pair of field-name character classes;
     section 5 instantiates them with the generated tables. *)
-From Verif Require Import Repro.Check Repro.TokenProofs Repro.ParseProofs.
+From Verif Require Import Repro.Check Repro.TokenProofs Repro.ParseProofs Repro.ParseCheckProofs.
 
 (** * 1. The token stream *)
 
@@ -169,6 +169,16 @@ Proof.
            eq_refl eq_refl eq_refl).
 Qed.
 
+(** * 6. The bridge to the correspondence check: for every case the harness can
+       write, if the implementation's observation (token kinds and texts, element
+       tree, dump) equals what the model computes ([agree], evaluated at run time),
+       then the property judged on that observation against the Spec ([holds]) is
+       true.  So a run with agree-fail 0 needs no separate evidence for [holds]
+       on the compared cases: it follows from the theorems above. *)
+Theorem C01_agree_implies_holds :
+  forall c, agree c = true -> holds c = true.
+Proof. exact agree_implies_holds. Qed.
+
 (** Non-vacuity.  A form-1 document with a comment before a field, a comment inside
     a continuation, odd whitespace (TAB, CR, NBSP, FF), duplicate fields in
     different case, a continuation line without a field, a syntactically invalid
@@ -213,3 +223,4 @@ Print Assumptions C01_parse_accepting_total.
 Print Assumptions C01_parse_accepting_only_tokenizer_errors.
 Print Assumptions C01_py_tokenize_lossless.
 Print Assumptions C01_py_parse_dump_lossless.
+Print Assumptions C01_agree_implies_holds.
